@@ -31,7 +31,7 @@ ASSUMPTIONS = ['the clock value right after the completing step is not prescribe
 FLOORS = {'quick': {'completions_mid_step': 910, 'completions_outside': 75, 'later_system_due_in_completing_step': 500,
                     'tail_execute': 2000, 'tail_execute_n': 2000, 'tail_execute_systems': 2000, 'tail_throw': 2000,
                     'model_complete_errors': 2000, 'tail_add': 1000, 'tail_remove': 500, 'batch_driver_runs': 20,
-                    'pos_first': 100, 'pos_middle': 100, 'pos_last': 100,
+                    'pos_first': 100, 'pos_middle': 100, 'pos_last': 100, 'multi_step_past_completion': 200,
                     'reach:Core.Model.complete': 1500, 'reach:Core.SystemManager.execute_systems': 10000},
           'thorough': {'completions_mid_step': 60000, 'model_complete_errors': 100000}}
 EXHAUSTIVE = {}
@@ -125,7 +125,21 @@ def completing_run(ctx, rng, prios, pos, tc, windows=None, via_n=False):
     completer.start, completer.frequency = 0, 1          # the completer itself must be due at tc
     # run up to and including the completing step
     if via_n:
-        model.execute(tc + 1 + rng.randint(0, 3))       # execute(n) running past the completion: the rest are no-ops
+        n_req = tc + 1 + rng.randint(0, 3)
+        model.execute(n_req)       # execute(n) running past the completion: the rest are no-ops
+        # ... and must be equivalent to n_req single steps on an identically built twin (clock and log)
+        twin = core.Model()
+        tlog = []
+        for j, p in enumerate(prios):
+            s0 = systems[j]
+            twin.systems.add_system(Logger(s0.id, twin, tlog, when=s0.when, priority=p, start=s0.start, frequency=s0.frequency))
+        for _ in range(n_req):
+            twin.execute()
+        ctx.count('multi_step_past_completion' if n_req > tc + 1 else 'multi_step_to_completion')
+        if (model.timestep, log) != (twin.timestep, tlog):
+            raise CaseViolation(f'execute({n_req}) with completion at step {tc} is not equivalent to {n_req} single steps '
+                                f'(later steps of the request must leave the timestep untouched)', clock_multi=model.timestep,
+                                clock_single_steps=twin.timestep, log_multi=log[-6:], log_single=tlog[-6:])
     else:
         for _ in range(tc + 1):
             check(model.is_running() and bool(model), 'model not running before completion')
